@@ -91,3 +91,8 @@ CHECKS["C05"] = _resmgr("C05",
     "same frame as C01; oracle: told-view (creation adjustment + returned and pushed updates, NRI merge semantics) equals the cache for every live container, nothing pending, "
     "adjustment describes only the created container, at most one update per container, no update to stopped/removed containers; non-trivial = states with at least two live containers",
     "8 scenarios, depth 5", "12 scenarios, depth 6")
+CHECKS["C09"] = _resmgr("C09",
+    "explicit-state BFS as C01 plus failing requests, resynchronisation, reconfiguration between stop and remove, restarts and re-created containers; for EVERY visited state the history is extended by "
+    "'stop and remove everything' on the same real instance and compared with the pristine state of a fresh instance with the effective configuration; per request: stopped/removed containers hold nothing; "
+    "non-trivial = states with at least two live containers",
+    "12 scenarios, depth 5 (+ drain suffix per state)", "16 scenarios, depth 6 (+ drain suffix per state)")
